@@ -502,6 +502,41 @@ func (b *Builder) Quant(kind string, vars []*Term, body *Term, pats ...*Term) *T
 	for _, v := range vars {
 		qv = append(qv, fmt.Sprintf("(%s %s)", v.Op, v.Sort))
 	}
+	// forall v. (g => forall w. B)  ==  forall v w. (g => B): one quantifier with
+	// two variables instantiates far better than a nested pair
+	if kind == "forall" && len(pats) == 0 {
+		g, inner := (*Term)(nil), body
+		if body.Op == "=>" && len(body.Args) == 2 {
+			g, inner = body.Args[0], body.Args[1]
+		}
+		if inner.Op == "q" && inner.QKind == "forall" && len(inner.Pat) == 0 && !inner.Multi {
+			clash := false
+			for _, a := range qv {
+				for _, c := range inner.QVars {
+					if a == c {
+						clash = true
+					}
+				}
+			}
+			if !clash {
+				ib := inner.Args[0]
+				nb := ib
+				if g != nil {
+					if ib.Op == "=>" && len(ib.Args) == 2 {
+						nb = b.Implies(b.And(g, ib.Args[0]), ib.Args[1])
+					} else {
+						nb = b.Implies(g, ib)
+					}
+				}
+				qv = append(qv, inner.QVars...)
+				body = nb
+				for _, c := range inner.QVars {
+					name := strings.TrimPrefix(strings.Fields(c)[0], "(")
+					vars = append(append([]*Term{}, vars...), &Term{Op: name, Lit: "bound"})
+				}
+			}
+		}
+	}
 	t := &Term{Op: "q", Sort: "Bool", Args: []*Term{body}, QKind: kind, QVars: qv, Pat: pats}
 	t = b.mk(t)
 	// Bound flag: conservatively true if body mentions other bound vars; we
